@@ -733,6 +733,9 @@ func runC20(r *Run, verifDir string) {
 	if cf := p.Func("ttlv", "Encoder", "Clear"); cf != nil {
 		resets := false
 		allInstrs(cf, func(in ssa.Instruction) {
+			if st, ok := in.(*ssa.Store); ok && zeroExtensionStore(st) {
+				resets = true
+			}
 			if st, ok := in.(*ssa.Store); ok && isNilConst(st.Val) {
 				if _, fld, ok := fieldAddrOf(st.Addr); ok && fname(fld) == "version" {
 					resets = true
